@@ -247,7 +247,17 @@ impl Property for C10 {
                     // now and then the directory also holds a file that is not a WAL file and sorts after them all
                     let stray = fnv(*t, &[active as u8, 9]) % 4 == 0;
                     let st = if stray { let mut im = img.clone(); im.insert("wal.lock".to_string(), b"pid 4711".to_vec()); rep.probe("stray_file_in_wal_directory"); SimWalStore::from_image(&im) } else { SimWalStore::from_image(&img) };
-                    let mut r = match WalRotator::new(st.clone(), max_file_size) { Ok(r) => r, Err(_) => continue };
+                    // every third time the rotator that truncates is the long-lived one that wrote the files itself (whatever it
+                    // remembers about them from writing comes into play); otherwise a rotator opened on the stored image
+                    let same_instance = !stray && fnv(*t, &[active as u8, 5]) % 3 == 0;
+                    let (st, mut r) = if same_instance {
+                        rep.probe("truncation_by_the_rotator_that_wrote_the_files");
+                        let st = SimWalStore::new(Seq::default());
+                        let mut r = match WalRotator::new(st.clone(), max_file_size) { Ok(r) => r, Err(_) => continue };
+                        for (id, ts, payload, rr) in &specs { let e = WalEntry::from_delta(&delta(*id, *ts, payload, *rr), *ts).unwrap(); let _ = r.append(&e); }
+                        let _ = r.sync();
+                        (st, r)
+                    } else { match WalRotator::new(st.clone(), max_file_size) { Ok(r) => (st, r), Err(_) => continue } };
                     let mut active_name = None;
                     let mut extra: Option<(Vec<u8>, u64)> = None;
                     if active {
